@@ -701,6 +701,25 @@ def gzip_branch_polarity(repo, col):
                 continue
             n += 1
             t, tr = rel[-1]
+            # a plain open whose file object is handed to gzip.GzipFile(
+            # fileobj=...) is the raw file *under* the gzip writer
+            if is_plain:
+                wrapped = False
+                for c2 in calls_in(fn.node):
+                    nm2 = fn.module.resolve(call_name(c2) or "") or ""
+                    if nm2 in ("gzip.GzipFile", "gzip.open") and (
+                            kwarg(c2, "fileobj") is not None or any(
+                                any(y is c for y in walk_local(a_))
+                                for a_ in c2.args)):
+                        st2 = owner.get(id(c2))
+                        ctx2 = _tests_enclosing(fn.node, st2) \
+                            if st2 is not None else None
+                        if ctx2 is not None and [(norm(x), y) for x, y in
+                                                 ctx2] == [(norm(x), y)
+                                                           for x, y in ctx]:
+                            wrapped = True
+                if wrapped:
+                    continue
             atoms = holds(t, tr)
             # positive form: self.gzip truthy and mime not in exempt set
             says_compress = any(a.op == "truthy" and "gzip" in norm(a.left)
